@@ -35,7 +35,7 @@ class Contract:
         for k, v in kw.pop("loops", {}).items():
             self.loops[k] = {"inv": _labelled(v.get("inv", []), "inv"),
                              "modifies": v.get("modifies", []),
-                             "decreases": v.get("decreases"), "locals": v.get("locals", {})}
+                             "decreases": v.get("decreases"), "locals": v.get("locals", {}), "ghost_init": v.get("ghost_init", [])}
         self.decreases = kw.pop("decreases", None)
         self.cycle = kw.pop("cycle", None)
         self.inline = kw.pop("inline", False)
@@ -50,7 +50,7 @@ class Contract:
         self.src_text = None
 
     def loop(self, k):
-        return self.loops.get(k, {"inv": [], "modifies": [], "decreases": None, "locals": {}})
+        return self.loops.get(k, {"inv": [], "modifies": [], "decreases": None, "locals": {}, "ghost_init": []})
 
 
 def _labelled(items, prefix):
